@@ -104,7 +104,7 @@ func readProfile(data []byte) (o iccObs) {
 // through bufio.
 var iccSourceCounter int
 
-func checkICCSources(c *ctx, prop string, data []byte) {
+func checkICCSources(c *ctx, prop string, data []byte, want [][]byte) {
 	iccSourceCounter++
 	if iccSourceCounter%4 != 0 {
 		return
@@ -122,7 +122,21 @@ func checkICCSources(c *ctx, prop string, data []byte) {
 		if err != nil || p == nil {
 			return "err"
 		}
-		return "ok " + headerString(&p.Header, data)
+		// the description too, where the profile determines it up to the admissible alternatives `want`
+		desc := ""
+		if want != nil {
+			d, derr := p.Description()
+			desc = " desc-not-admissible:" + hx([]byte(d))
+			if derr != nil {
+				desc = " desc-err"
+			}
+			for _, w := range want {
+				if derr == nil && d == string(w) {
+					desc = " desc-ok"
+				}
+			}
+		}
+		return "ok " + headerString(&p.Header, data) + desc
 	}
 	plain := state(bytes.NewReader(data))
 	pre := []byte("a container's bytes before the profile: \x00\x00\x02\x0cacsp and more")
@@ -226,7 +240,7 @@ var c16Fields = []string{"size", "cmm", "major", "minorrev", "class", "space", "
 
 func c16Check(c *ctx, kind string, hdr []byte, tail []byte) {
 	data := zeroTagProfile(hdr, tail)
-	checkICCSources(c, "C16", data)
+	checkICCSources(c, "C16", data, nil)
 	impl := implHeader(data)
 	hasSig := bytes.Equal(hdr[36:40], []byte("acsp"))
 	c.res.count(kind, hx(hdr), true)
@@ -774,7 +788,7 @@ func checkHeldProfiles(c *ctx, prop string) {
 
 func c17Case(c *ctx, kind string, data []byte, want [][]byte, ntags int) {
 	holdProfile(data, len(want) <= 1)
-	checkICCSources(c, "C17", data)
+	checkICCSources(c, "C17", data, want)
 	impl := implDesc(data)
 	for name, mk := range map[string]func([]byte) *bufio.Reader{
 		"bufio.Reader":                func(b []byte) *bufio.Reader { return bufio.NewReader(bytes.NewReader(b)) },
